@@ -95,7 +95,10 @@ class Exec(Core):
         if tag == 'Lit':
             return self.const_value(sort.args[0])
         if tag == 'Ref':
-            return VOpaque(z3.Const(self.fresh_name(hint), RefSort), sort.args[0])
+            r = z3.Const(self.fresh_name(hint), RefSort)
+            if getattr(self, '_entry_phase', False):
+                self.assume(models.birth(r) <= 0)
+            return VOpaque(r, sort.args[0])
         if tag == 'Cls':
             info = self.find_class(sort.args[0])
             return VClass(info if info is not None else sort.args[0])
